@@ -10,7 +10,7 @@ SM1, SM2, SMX = "urn:sm/1+=", "grüße-ä", "https://ex.org/sm?a=b&c=>>>?"
 AAS1, AAS2 = "urn:aas:1", ">>>???"
 CD1, CD2 = "urn:cd:1", "urn:cd:2"
 IDS = [SM1, SM2, SMX, AAS1, AAS2, CD1, CD2, "urn:new:1", "urn:new:2", "A", "urn:dangling"]
-NAMES = ["p1", "p2", "p3", "c1", "c2", "l1", "f1", "f2", "f3", "f4", "b1", "b2", "n1", "n2", "x_9"]
+NAMES = ["p1", "p2", "p3", "c1", "c2", "l1", "f1", "f2", "f3", "f4", "b1", "b2", "n1", "n2", "n3", "n4", "x_9"]
 QTYPES = ["q1", "q2", "Q 3/ü+="]
 
 
@@ -133,7 +133,7 @@ QUERIES = [  # (label, [(key, raw)], qlabels)
 VALUES = [  # (label, abstract value)
     ("sm-new", {"k": "sm", "id": "urn:new:1", "ids": "New", "tok": 9, "quals": [("q2", 7)], "elems": [P("n1", 1)]}),
     ("sm-existing", {"k": "sm", "id": SM1, "ids": "Sm1", "tok": 9, "quals": [("q1", 8)],
-                     "elems": [P("p1", 4), C("c1", [P("p2", 5), P("n2", 5)], tok=5)]}),
+                     "elems": [P("p1", 4), C("c1", [P("p2", 5), P("n4", 5)], tok=5)]}),
     ("shell-new", {"k": "shell", "id": "urn:new:2", "ids": "ShN", "tok": 3, "refs": [SM2]}),
     ("shell-existing", {"k": "shell", "id": AAS1, "ids": "Sh1", "tok": 3, "refs": [SM2]}),
     ("cd-new", {"k": "cd", "id": "urn:new:1", "ids": "CdN", "tok": 3}),
@@ -141,7 +141,7 @@ VALUES = [  # (label, abstract value)
     ("prop-new", dict(P("n1", 2), k="elem")), ("prop-existing", dict(P("p1", 9, [("q2", 3)]), k="elem")),
     ("prop-noid", dict(P(None, 2), k="elem")), ("coll-new", dict(C("n2", [P("x_9", 1)]), k="elem")),
     ("coll-existing", dict(C("c1", [P("p2", 7)], tok=7), k="elem")), ("range-noid", dict(R(None), k="elem")),
-    ("file-new", dict(F("n1", None), k="elem")), ("file-f1", dict(F("f1", None, tok=9), k="elem")),
+    ("file-new", dict(F("n3", None), k="elem")), ("file-f1", dict(F("f1", None, tok=9), k="elem")),
     ("list-l1", dict(L("l1", [P(None, 6), P(None, 7)]), k="elem")),
     ("qual-new", {"k": "qual", "type": "q2", "val": 2}), ("qual-existing", {"k": "qual", "type": "q1", "val": 3}),
     ("qual-odd", {"k": "qual", "type": QTYPES[2], "val": 4}),
@@ -271,4 +271,59 @@ def matrix(routes, rng, full, expects=None):
                 r["oracle_only"] = "the XML reader ignores the root tag"
         if want and b[0] == "raw" and b[3] == "bad":
             r["must_reject"] = "malformed body"
+    return out
+
+
+def renames(req):
+    """does this request change an identifier by PUT (id of a top-level object / idShort of an element)?"""
+    b = req["body"]
+    if req["method"] != "PUT" or b[0] != "val":
+        return False
+    v = b[2]
+    import httpcorr as H
+    if v["k"] in ("sm", "shell", "cd"):
+        raw = req.get({"sm": "sm", "shell": "aas", "cd": "cd"}[v["k"]])
+        lab = H.decode_label(raw) if raw else ("bad",)
+        return lab[0] == "ok" and lab[1] != v["id"]
+    if v["k"] == "elem" and req.get("path"):
+        return req["path"].split(".")[-1] != v["ids"]
+    return False
+
+
+def random_history(rng, pool, n):
+    """n requests sampled from the matrix pool; the store evolves (requests that were generated
+    against the fixture now meet deleted, replaced and newly created resources).  Identifier-changing
+    PUTs of nested elements are left out (their later merges are outside the model, see Http.v)."""
+    out = []
+    while len(out) < n:
+        r = rng.choice(pool)
+        if r.get("oracle_only"):
+            continue
+        if renames(r) and r["body"][2]["k"] == "elem":
+            continue
+        out.append(r)
+    return out
+
+
+def scenarios():
+    """directed histories for the known open findings: (label, backed, requests, index of the
+    request the finding is about, signature, oracle_only)"""
+    J = (None, "json")
+    def rq(rule, method, body=("none",), **kw):
+        return dict({"rule": rule, "method": method, "accept": J, "query": [], "body": body, "cls": kw.pop("cls", "scenario")}, **kw)
+    out = []
+    for k, rule, arg, mk in [("sm", "/submodels", "sm", lambda i: {"k": "sm", "id": i, "ids": "S", "tok": 1, "quals": [], "elems": []}),
+                             ("shell", "/shells", "aas", lambda i: {"k": "shell", "id": i, "ids": "S", "tok": 1, "refs": []}),
+                             ("cd", "/concept-descriptions", "cd", lambda i: {"k": "cd", "id": i, "ids": "S", "tok": 1})]:
+        conv = {"sm": "submodel_id", "aas": "aas_id", "cd": "concept_id"}[arg]
+        one = f"{rule}/<base64url:{conv}>"
+        for backed in (False, True):
+            reqs = [rq(rule, "POST", ("val", "json", mk("urn:a"))),
+                    rq(one, "PUT", ("val", "json", mk("urn:b")), **{arg: b64("urn:a")}),
+                    rq(one, "GET", **{arg: b64("urn:a")}),
+                    rq(one, "GET", **{arg: b64("urn:b")}),
+                    rq(one, "DELETE", **{arg: b64("urn:a")})]
+            for r in reqs[2:]:
+                r["sig"] = ("local-file-" if backed else "") + "after-id-changing-put"
+            out.append((f"rename-{k}-{'file' if backed else 'mem'}", backed, reqs, backed))
     return out
